@@ -102,7 +102,7 @@ def run(prop, tier, replay=None):
         tot["files_parsed_by_independent_reader"] = files_checked
         if files_checked < tot.get("files", 0):
             chk.fail("only %d of %d produced files were parsed" % (files_checked, tot.get("files", 0)))
-    for k in (["short_writes", "file_uri_spellings", "empty_cycles", "cycles"] if prop == "C14" else ["short_writes", "cycles"]):
+    for k in (["short_writes", "file_uri_spellings", "empty_cycles", "cycles", "restarts_without_set"] if prop == "C14" else ["short_writes", "cycles"]):
         if not tot.get(k):
             chk.fail("required event class never observed: %s" % k)
     chk.coverage = {"events": tot}
